@@ -2,8 +2,11 @@
 
 Decides: that pytype runs pytd/optimize.py with the lossless settings, that
 every meaning-changing pass of `Optimize` is control-dependent on its flag,
-that collapsing goes to the top type, and one ordering fact idempotence needs
-(containers are re-simplified after every pass that can create `X[Any]`).
+that collapsing goes to the top type, the direction in which the
+hierarchy-based union rewrites walk the class hierarchy, and the ordering facts
+idempotence needs (containers are re-simplified after every pass that can
+create `X[Any]`, unions re-joined after every pass that can create Any, and the
+passes that only understand bare class names run on simplified containers).
 Does NOT decide containment (input <= output) or idempotence themselves.
 """
 import ast
@@ -34,7 +37,36 @@ EXPLANATION = (
     "identity, are not decided.  R11.5 every path from a pass that can turn "
     "a union member into Any (object -> Any in return and constant types) to "
     "the end of Optimize runs a union-joining pass again (otherwise the "
-    "emitted Union[X, Any] collapses to Any on a second run).")
+    "emitted Union[X, Any] collapses to Any on a second run).  R11.6 the "
+    "hierarchy-based rewrites walk the class hierarchy in the widening "
+    "direction: the direction of every SuperClassHierarchy query is derived "
+    "from the table it reads (the class -> superclasses mapping Optimize "
+    "extracts with ExtractSuperClassesByName / abc_hierarchy.GetSuperClasses, "
+    "or its utils.invert_dict inversion; transitively through self-calls), "
+    "never from the query's name; in the lossless subset filter "
+    "(SimplifyUnionsWithSuperclasses: members counted in more than one "
+    "member's closure are dropped) the closure must be the SUBclass closure "
+    "- a dropped member is then covered by one that stays - and in the lossy "
+    "join (FindCommonSuperClasses: names common to one closure per member) "
+    "every closure must be the SUPERclass closure.  R11.7 every pass that is "
+    "constructed with the hierarchy and keys it by str(member) - it can only "
+    "relate bare class names, X[Any] is no key - is preceded on every path by "
+    "SimplifyContainers after the input and after any pass that can create "
+    "X[Any]; otherwise Union[Sub, X[Any]] survives the hierarchy pass, the "
+    "final SimplifyContainers (R11.4) turns it into Union[Sub, X] and a "
+    "second run drops Sub.  Blind spots: R11.6 understands two shapes only "
+    "(count-of-closures subset filter, intersection-of-closures join); an "
+    "equivalent idiom (e.g. testing another member against the superclass "
+    "closure of the candidate), or a key other than str(member) (a visitor "
+    "that maps X[..] to its base class before asking the hierarchy), is an "
+    "analysis error, not a verdict.  R11.7 judges only what precedes the "
+    "hierarchy passes; that passes which can create X[Any] "
+    "(CollapseLongUnions, AdjustReturnAndConstantGenericType, ...) run AFTER "
+    "the last hierarchy pass, so that the final SimplifyContainers exposes a "
+    "bare X no hierarchy pass sees, is recorded as a note in the evidence and "
+    "not judged: it is true of today's tree (`def f(x): return Stack() if x "
+    "else [object()]` with `class Stack(list)` is emitted as Union[Stack, "
+    "list] and re-optimised to list).")
 ASSUMPTIONS = [
     "the classification of optimize.py's visitors into lossless / "
     "meaning-changing follows their docstrings and the `lossy`, `use_abcs`, "
@@ -43,6 +75,14 @@ ASSUMPTIONS = [
     "flags; it is not one of 'the settings pytype uses' and is recorded, not "
     "judged",
     "test helpers (pytype/tests, *_test.py) are not part of pytype's output path",
+    "visitors.ExtractSuperClassesByName / ExtractSuperClasses and "
+    "abc_hierarchy.GetSuperClasses produce class -> superclasses mappings, "
+    "abc_hierarchy.GetSubClasses a class -> subclasses mapping, and "
+    "utils.invert_dict reverses the direction of a mapping (closed table "
+    "_MAPPING_PRODUCERS; their bodies are not analysed)",
+    "CREATES_ANY_CONTAINER (hand classification of the passes that can leave a "
+    "generic type with only-Any parameters) is shared by R11.4 and R11.7; the "
+    "input of Optimize counts as such a producer",
 ]
 
 OPT = "pytype/pytd/optimize.py"
